@@ -319,6 +319,9 @@ def impl(case):
     try:
         return limited(8, impl_, case)
     except TooSlow:
+        # the interrupt may have left half-built objects in SymPy's cache (it has bare `except:` clauses)
+        from sympy.core.cache import clear_cache
+        clear_cache()
         return {'built': None, 'why': 'timeout'}
     except (MemoryError, RecursionError, OverflowError) as ex:
         return {'built': None, 'why': type(ex).__name__}
@@ -335,11 +338,23 @@ def impl_(case):
         e = sp.sympify(e)
     obs = {'built': ser(e)}
     p = Printer()
-    try:
-        obs['out'] = p.doprint(e)
-    except Exception as ex:
-        obs['out'] = 'err:' + type(ex).__name__
-        obs['msg'] = str(ex)[:160]
+    for attempt in (0, 1):
+        try:
+            obs['out'] = p.doprint(e)
+            break
+        except Exception as ex:
+            obs['out'] = 'err:' + type(ex).__name__
+            obs['msg'] = str(ex)[:160]
+            if isinstance(ex, (ValueError, TypeError)) or attempt == 1:
+                break
+            # anything else may be an artefact of an earlier interrupted evaluation in this worker: retry once on
+            # a clean SymPy cache with a freshly built expression
+            from sympy.core.cache import clear_cache
+            clear_cache()
+            e = build(case['r'])
+            if isinstance(e, (bool, int, float)):
+                e = sp.sympify(e)
+            obs = {'built': ser(e)}
     # the tree after the secondary-trig rewriting doprint() performs first (sympy's `optimize`, rebuilding parents)
     try:
         from sympy.codegen.rewriting import optimize
@@ -422,7 +437,7 @@ def oracle_(case, obs):
                 w2 = Ref(env, 1e-14).ev(t)
             except (Undefined,) + NUMERIC_TROUBLE:
                 continue
-            if isinstance(w2, (bool, str)) or abs(w2 - want) > M.mpf(10) ** -10 * ref.big:
+            if isinstance(w2, (bool, str)) or abs(w2 - want) > M.mpf(10) ** -10 * max(1, abs(want)):
                 continue
         kind, got = run_python(out, env)
         if kind == 'exc':
